@@ -352,10 +352,14 @@ func (g *cityGen) openPath(id b6.FeatureID) *fspec {
 	mixed := !g.inBase && rc.Pct(25) // compact worlds cannot hold mixed paths: keep them out of base cities
 	for len(s.Path) < n {
 		p := rc.Draw(maxPoints)
-		if used[p] {
+		for used[p] { // terminates: n <= 5 < maxPoints (and a zero tape must not spin)
 			p = (p + 7) % maxPoints
-			if used[p] {
-				continue
+		}
+		// sometimes route the path over a point that was added later (not in
+		// the base city): exported files must then bring the point first
+		for _, extra := range []int{maxPoints + 2, maxPoints + 3} {
+			if !g.inBase && g.specs[pointID(extra)] != nil && !used[extra] && rc.Pct(30) {
+				p = extra
 			}
 		}
 		used[p] = true
